@@ -801,6 +801,14 @@ impl ReCompiler {
             Ok(Operation::from(Nothing))
         } else if min == 1 && max == 1 {
             Ok(ret)
+        } else if ret.get_match_length() == Some(0) {
+            // repeating a zero-width term adds nothing: it is the term itself,
+            // or nothing at all if it may be skipped
+            if min == 0 {
+                Ok(Operation::from(Nothing))
+            } else {
+                Ok(ret)
+            }
         } else if greedy {
             // actually do the quantifier now
             if let Some(match_length) = ret.get_match_length() {
